@@ -160,12 +160,39 @@ func c07BuildSpecial() {
 			}
 		}
 	}
+	// $client values of every kind (a name, a quoted name, a name with a slash
+	// that is not an address prefix, addresses, prefixes): each is a modifier.
+	for _, exc := range []bool{false, true} {
+		for _, cl := range []gen.Client{gen.ClientNames[0], gen.ClientNames[4], {Text: "kids/tablet", Name: "kids/tablet"}, {Text: "10.0.0.0/33", Name: "10.0.0.0/33"}, gen.ClientNets[1], gen.ClientNets[5]} {
+			for mask := 0; mask < 4; mask++ {
+				s := &gen.Spec{Pattern: "||x.com^", Exception: exc, Clients: []gen.Client{cl}}
+				if mask&1 != 0 {
+					s.Domains = []gen.Val{{Name: "d.com"}}
+				}
+				if mask&2 != 0 {
+					s.CTags = []gen.Val{{Name: "device_pc"}}
+				}
+				c07Pool = append(c07Pool, c07Make(s))
+			}
+		}
+	}
 }
 
 type c07Witness struct {
 	A string `json:"a"`
 	B string `json:"b,omitempty"`
 	C string `json:"c,omitempty"`
+}
+
+// c07Without returns s without its $client modifier, or nil.
+func c07Without(s *gen.Spec) *gen.Spec {
+	if len(s.Clients) == 0 {
+		return nil
+	}
+	n := s.Clone()
+	n.Clients = nil
+
+	return n
 }
 
 // c07Adders returns copies of s with one more modifier of a kind it does not
@@ -292,6 +319,14 @@ func init() {
 							c.Violation("specific-over-generic", nil, c07Witness{A: a.Text, B: b.Text}, "domain-specific %q does not outrank generic %q of the same class", a.Text, b.Text)
 						case a.Class == b.Class && a.Spec_ && !b.Spec_ && ba:
 							c.Violation("generic-over-specific", nil, c07Witness{A: a.Text, B: b.Text}, "generic %q outranks domain-specific %q of the same class", b.Text, a.Text)
+						}
+					}
+					// (and so does whatever $client value the rule carries)
+					if s0 := c07Without(a.Spec); s0 != nil {
+						b := c07Make(s0)
+						c.Eval(1)
+						if !a.Rule.IsHigherPriority(b.Rule) || b.Rule.IsHigherPriority(a.Rule) {
+							c.Violation("add-modifier-not-higher", nil, c07Witness{A: b.Text, B: a.Text}, "%q (one more modifier: $client) is not strictly higher than %q", a.Text, b.Text)
 						}
 					}
 					// Adding a modifier makes a rule strictly higher.
